@@ -593,6 +593,9 @@ func (b *Built) Execute(r *rand.Rand) {
 		ret.SibBad = b.sibBad()
 		if e := res.Err(); e != nil {
 			b.classifyErr(e, &ret)
+			if ret.Kind == "targeterr" {
+				ret.Outs = ResultToks(res) // what the function returned next to its error
+			}
 		} else {
 			ret.Kind = "ok"
 			ret.Outs = ResultToks(res)
@@ -610,6 +613,9 @@ func (b *Built) Execute(r *rand.Rand) {
 		ret2.Len = res2.Len()
 		if e := res2.Err(); e != nil {
 			b.classifyErr(e, &ret2)
+			if ret2.Kind == "targeterr" {
+				ret2.Outs = ResultToks(res2)
+			}
 		} else {
 			ret2.Kind = "ok"
 			ret2.Outs = ResultToks(res2)
